@@ -73,6 +73,106 @@ class Unknown:
         return isinstance(o, Unknown) and o.sym == self.sym and o.neg == self.neg
 
 
+class Iv:
+    """closed real interval [lo, hi] — abstract number; identity (`is`) marks 'the same quantity' so x-x=0 and x/x=1"""
+    __slots__ = ("lo", "hi", "name", "addends")
+    _n = 0
+
+    def __init__(self, lo, hi, name=None, addends=None):
+        self.lo, self.hi = float(lo), float(hi)
+        Iv._n += 1
+        self.name = name or f"iv{Iv._n}"
+        self.addends = addends      # (a, b) when this value is the sum a + b (kept for x / (x + y))
+
+    def __repr__(self):
+        return f"{self.name}∈[{self.lo:g},{self.hi:g}]"
+
+    @staticmethod
+    def of(x):
+        if isinstance(x, Iv):
+            return x
+        if isinstance(x, bool):
+            return Iv(int(x), int(x))
+        return Iv(x, x)
+
+
+def _iv_mul(a, b):
+    ps = []
+    for x in (a.lo, a.hi):
+        for y in (b.lo, b.hi):
+            ps.append(0.0 if (x == 0 or y == 0) else x * y)
+    return Iv(min(ps), max(ps))
+
+
+def iv_binop(op, a, b):
+    """interval arithmetic; returns Iv, a python number, or None (not applicable)"""
+    inf = float("inf")
+    if isinstance(op, ast.Add):
+        if not isinstance(b, Iv) and b == 0:
+            return a
+        if not isinstance(a, Iv) and a == 0:
+            return b
+        A, B = Iv.of(a), Iv.of(b)
+        return Iv(A.lo + B.lo, A.hi + B.hi, addends=(a, b))
+    if isinstance(op, ast.Sub):
+        if a is b:
+            return 0.0
+        if not isinstance(b, Iv) and b == 0:
+            return a
+        A, B = Iv.of(a), Iv.of(b)
+        return Iv(A.lo - B.hi, A.hi - B.lo)
+    if isinstance(op, ast.Mult):
+        if (not isinstance(a, Iv) and a == 0) or (not isinstance(b, Iv) and b == 0):
+            return 0.0
+        if not isinstance(b, Iv) and b == 1:
+            return a
+        if not isinstance(a, Iv) and a == 1:
+            return b
+        return _iv_mul(Iv.of(a), Iv.of(b))
+    if isinstance(op, ast.Div):
+        if a is b and (a.lo > 0 or a.hi < 0):
+            return 1.0
+        if not isinstance(a, Iv) and a == 0:
+            return 0.0        # 0 / x  (x = 0 would raise; the guarded paths are the ones analysed)
+        if not isinstance(b, Iv) and b == 1:
+            return a
+        if isinstance(b, Iv) and b.addends is not None and isinstance(a, Iv) and any(x is a for x in b.addends) and a.lo >= 0:
+            # x / (x + y) with x, y >= 0 is monotone: increasing in x, decreasing in y
+            y = Iv.of(b.addends[1] if b.addends[0] is a else b.addends[0])
+            if y.lo >= 0 and (a.lo + y.hi) > 0 and (a.hi + y.lo) > 0:
+                return Iv(a.lo / (a.lo + y.hi), a.hi / (a.hi + y.lo))
+        A, B = Iv.of(a), Iv.of(b)
+        if B.lo <= 0 <= B.hi:
+            if B.lo == 0 and B.hi > 0 and A.lo >= 0:
+                return Iv(A.lo / B.hi if B.hi != inf else 0.0, inf)
+            return Iv(-inf, inf)
+        return _iv_mul(A, Iv(1.0 / B.hi, 1.0 / B.lo))
+    return None
+
+
+def iv_compare(op, a, b):
+    """True / False when decided for every concretisation, else None"""
+    if a is b:
+        return isinstance(op, (ast.Eq, ast.LtE, ast.GtE))
+    A, B = Iv.of(a), Iv.of(b)
+    if isinstance(op, ast.Lt):
+        return True if A.hi < B.lo else (False if A.lo >= B.hi else None)
+    if isinstance(op, ast.LtE):
+        return True if A.hi <= B.lo else (False if A.lo > B.hi else None)
+    if isinstance(op, ast.Gt):
+        return True if A.lo > B.hi else (False if A.hi <= B.lo else None)
+    if isinstance(op, ast.GtE):
+        return True if A.lo >= B.hi else (False if A.hi < B.lo else None)
+    if isinstance(op, ast.Eq):
+        if A.lo == A.hi == B.lo == B.hi:
+            return True
+        return False if (A.hi < B.lo or B.hi < A.lo) else None
+    if isinstance(op, ast.NotEq):
+        r = iv_compare(ast.Eq(), a, b)
+        return None if r is None else (not r)
+    return None
+
+
 class EnumVal:
     __slots__ = ("cls", "name", "value")
 
@@ -235,6 +335,8 @@ class Interp:
         self.watch_fields = set()      # (class name, field) whose writes are logged as events; (class name, '*') = all
         self.decisions = []            # (test text, outcome) for every branch taken on an Unknown
         self.trace_calls = set()       # qualnames whose invocation is logged as ("call", qual)
+        self.truncated_loops = 0
+        self.undecided_numeric = 0     # interval comparisons that could not be decided (explored both ways)
         self.ext_stubs = {}            # dotted external name -> callable(interp, args, kwargs) (models of stdlib calls that can fail)
         self.max_unknown_len = 2       # an unknown collection is iterated with 0..max_unknown_len unknown elements
         self._modenv = {}
@@ -257,6 +359,16 @@ class Interp:
             val = (c == 0)
             val = (not val) if v.neg else val
             self.decisions.append((label or v.sym, val, v.sym, (not val) if v.neg else val))
+            return val
+        if isinstance(v, Iv):
+            if v.lo > 0 or v.hi < 0:
+                return True
+            if v.lo == v.hi == 0:
+                return False
+            self.undecided_numeric += 1
+            c = self.o.choose(2, f"{v!r} != 0", key=("truth", v.name))
+            val = (c == 0)
+            self.decisions.append((f"{v!r} != 0", val, v.name, val))
             return val
         if isinstance(v, (EnumVal, Obj, Func, ClassRef, ExtRef, ExcVal, BoundBuiltin)):
             if isinstance(v, Obj) and v.cls is not None:
@@ -668,7 +780,14 @@ class Interp:
 
     def x_While(self, st, env, module):
         n = 0
-        while self.truth(self.eval(st.test, env, module), short(st.test)):
+        while True:
+            cond = self.eval(st.test, env, module)
+            if isinstance(cond, (Unknown, Iv)) and n >= 2:
+                # a loop whose exit test stays unknown: explored for 0, 1 and 2 iterations only (recorded)
+                self.truncated_loops += 1
+                break
+            if not self.truth(cond, short(st.test)):
+                break
             n += 1
             if n > self.MAX_LOOP:
                 raise Imprecise(f"while loop at {module.rel}:{st.lineno} exceeds {self.MAX_LOOP} iterations")
@@ -911,6 +1030,10 @@ class Interp:
             a = a.value
         if isinstance(b, EnumVal) and isinstance(b.value, (int, float)) and "IntEnum" in b.cls.bases:
             b = b.value
+        if (isinstance(a, Iv) or isinstance(b, Iv)) and all(isinstance(x, (Iv, int, float)) for x in (a, b)):
+            r = iv_binop(op, a, b)
+            if r is not None:
+                return r
         if isinstance(a, Unknown) or isinstance(b, Unknown):
             sa = a.sym if isinstance(a, Unknown) else repr(a)
             sb = b.sym if isinstance(b, Unknown) else repr(b)
@@ -968,6 +1091,14 @@ class Interp:
             a = a.value
         if isinstance(b, EnumVal) and isinstance(a, (int, float)) and not isinstance(a, bool) and "IntEnum" in b.cls.bases:
             b = b.value
+        if (isinstance(a, Iv) or isinstance(b, Iv)) and all(isinstance(x, (Iv, int, float)) for x in (a, b)):
+            r = iv_compare(op, a, b)
+            if r is not None:
+                return r
+            self.undecided_numeric += 1
+            canon = {ast.Eq: ("==", False), ast.NotEq: ("==", True), ast.Lt: ("<", False), ast.GtE: ("<", True),
+                     ast.Gt: (">", False), ast.LtE: (">", True)}[type(op)]
+            return Unknown(f"({_sym(a)} {canon[0]} {_sym(b)})", canon[1])
         if isinstance(a, Unknown) or isinstance(b, Unknown):
             sa = a.sym if isinstance(a, Unknown) else repr(a)
             sb = b.sym if isinstance(b, Unknown) else repr(b)
@@ -1387,6 +1518,26 @@ class Interp:
                 return str(x)
             if name == "bool":
                 return self.truth(args[0]) if args else False
+            if name == "abs" and args and isinstance(args[0], Iv):
+                x = args[0]
+                if x.lo >= 0:
+                    return x
+                if x.hi <= 0:
+                    return Iv(-x.hi, -x.lo)
+                return Iv(0, max(-x.lo, x.hi))
+            if name == "float" and args and isinstance(args[0], Iv):
+                return args[0]
+            if name in ("sum", "min", "max") and args and any(isinstance(x, Iv) for x in (self.iterate(args[0]) if len(args) == 1 and not isinstance(args[0], (int, float, Iv)) else list(args))):
+                items = self.iterate(args[0]) if len(args) == 1 and not isinstance(args[0], (int, float, Iv)) else list(args)
+                if name == "sum":
+                    acc = args[1] if len(args) > 1 else 0
+                    for x in items:
+                        acc = self.binop(ast.Add(), acc, x)
+                    return acc
+                ivs = [Iv.of(x) for x in items]
+                if name == "max":
+                    return Iv(max(i.lo for i in ivs), max(i.hi for i in ivs))
+                return Iv(min(i.lo for i in ivs), min(i.hi for i in ivs))
             if name in ("sum", "min", "max") and args:
                 items = self.iterate(args[0]) if len(args) == 1 and not isinstance(args[0], (int, float)) else list(args)
                 if name == "sum" and len(args) > 1:
@@ -1424,6 +1575,8 @@ class Interp:
                 return getattr(math, last)(*args)
             except Exception as ex:
                 raise PyRaise(ExcVal(type(ex).__name__, (str(ex),)))
+        if last in ("OrderedDict",) and not args:
+            return {}
         if last in ("Lock", "RLock", "Event", "Thread", "Condition", "Semaphore"):
             return Obj(None, {}, tag=last)
         if name in ("time.time", "time.monotonic", "time.perf_counter") or last in ("now", "utcnow", "today"):
@@ -1505,6 +1658,8 @@ class Interp:
                 k = args[0]
                 d = args[1] if len(args) > 1 else kwargs.get("default")
                 if isinstance(k, Unknown):
+                    if k in recv:
+                        return recv[k]
                     if not recv:
                         return d
                     return self.fresh("dict.get")
@@ -1540,6 +1695,24 @@ class Interp:
                 return None
             if name == "copy":
                 return dict(recv)
+            if name == "move_to_end":
+                k = args[0]
+                if k in recv:
+                    v = recv.pop(k)
+                    if kwargs.get("last", args[1] if len(args) > 1 else True):
+                        recv[k] = v
+                    else:
+                        items = [(k, v)] + list(recv.items())
+                        recv.clear()
+                        recv.update(items)
+                    return None
+                raise PyRaise(ExcVal("KeyError", (k,)))
+            if name == "popitem":
+                if not recv:
+                    raise PyRaise(ExcVal("KeyError", ("popitem(): dictionary is empty",)))
+                last_ = kwargs.get("last", args[0] if args else True)
+                k = list(recv.keys())[-1 if last_ else 0]
+                return (k, recv.pop(k))
         if isinstance(recv, list):
             if name == "append":
                 recv.append(args[0])
@@ -1653,6 +1826,8 @@ _MISSING = object()
 
 
 def _sym(a):
+    if isinstance(a, Iv):
+        return a.name
     if isinstance(a, Unknown):
         return ("¬" if a.neg else "") + a.sym
     r = repr(a)
@@ -1660,7 +1835,7 @@ def _sym(a):
 
 
 def _opaque(v):
-    return isinstance(v, (Unknown, Obj, EnumVal, Func, ClassRef, ExtRef, ExcVal, BoundBuiltin))
+    return isinstance(v, (Unknown, Obj, EnumVal, Func, ClassRef, ExtRef, ExcVal, BoundBuiltin, Iv))
 
 
 def _boolish(x):
